@@ -71,7 +71,7 @@ def _fit(job):
            'src': 'fit:' + pattern}
     try:
         # a third of the models are instances with a past (fitted to another table, sampled, asked for a likelihood)
-        m = V.fit_vine(df, vtype, trunc, past=V.past_table(rs, n, seed) if seed % 3 == 1 else None)
+        m = V.fit_vine(df, vtype, trunc, past=(V.past_table(rs, n, seed) if seed % 3 == 1 else V.same_shape_past(rs, df, seed) if seed % 3 == 2 and df.dtypes.eq('float64').all() else None))
         rec['trees'], rec['admissible'] = V.structure(m.trees)
         if vtype == 'regular':
             rec['w'] = V.rank_matrix(V.kendall_abs(df))
